@@ -55,7 +55,7 @@ from spyne.const.http import HTTP_405, HTTP_500
 from spyne.error import RequestNotAllowed
 from spyne.model.fault import Fault
 from spyne.model.primitive import Date, Time, DateTime
-from spyne.protocol.xml import XmlDocument
+from spyne.protocol.xml import XmlDocument, _cleanup_namespaces
 from spyne.protocol.soap.mime import collapse_swa
 from spyne.server.http import HttpTransportContext
 
@@ -383,7 +383,7 @@ class Soap11(XmlDocument):
             ctx.out_document.append(ctx.out_body_doc)
 
         if self.cleanup_namespaces:
-            etree.cleanup_namespaces(ctx.out_document)
+            _cleanup_namespaces(ctx.out_document, self.app.interface.nsmap)
 
         self.event_manager.fire_event('after_serialize', ctx)
 
